@@ -240,6 +240,93 @@ Section WithCipher.
   Definition encrypt_old := encrypt_with gen_auth_replace true.
   Definition decrypt_old := decrypt_with gen_auth_replace true.
 
+  (** ** The manager INSTANCE.  A CryptoManager object keeps, between calls, the attributes
+      patched, M, integrity, encryption, nonce, auth (key and base_class are fixed by the
+      constructor of the two subclasses).  The transcription below threads them explicitly:
+      every [self.x = ...] is a [set_x], every read of [self.x] a projection of the CURRENT state. *)
+  Record mstate : Type := mkMs { ms_patched : bool; ms_M : nat; ms_int : bool; ms_enc : bool;
+                                 ms_nonce : bytes; ms_auth : bytes }.
+  (** __init__: patched = False, the others None (never read before being written) *)
+  Definition ms_init : mstate := mkMs false 0 false false [] [].
+  Definition set_patched b s := mkMs b (ms_M s) (ms_int s) (ms_enc s) (ms_nonce s) (ms_auth s).
+  Definition set_M m s := mkMs (ms_patched s) m (ms_int s) (ms_enc s) (ms_nonce s) (ms_auth s).
+  Definition set_int b s := mkMs (ms_patched s) (ms_M s) b (ms_enc s) (ms_nonce s) (ms_auth s).
+  Definition set_enc b s := mkMs (ms_patched s) (ms_M s) (ms_int s) b (ms_nonce s) (ms_auth s).
+  Definition set_nonce n s := mkMs (ms_patched s) (ms_M s) (ms_int s) (ms_enc s) n (ms_auth s).
+  Definition set_auth a s := mkMs (ms_patched s) (ms_M s) (ms_int s) (ms_enc s) (ms_nonce s) a.
+  (** what the methods read from [self] *)
+  Definition self_params (s : mstate) : secparams :=
+    {| sp_M := ms_M s; sp_int := ms_int s; sp_enc := ms_enc s; sp_patched := ms_patched s |}.
+
+  (** [checkSecurityLevel] assigns self.patched in BOTH branches; its caller then assigns
+      self.M, self.integrity, self.encryption from the returned tuple *)
+  Definition csl_st (s : mstate) (f : frame) : frame * mstate :=
+    if f_lvl f =? 0 then
+      let s1 := set_patched true s in
+      (set_lvl 5 f, set_enc true (set_int true (set_M 4 s1)))
+    else
+      let s1 := set_patched false s in
+      let l := f_lvl f in
+      (f, set_enc (level_enc l) (set_int (level_int l) (set_M (if level_int l then level_M l else 0%nat) s1))).
+
+  Definition encrypt_st (key : bytes) (s : mstate) (f : frame) : pyres frame * mstate :=
+    let '(f1, s1) := csl_st s f in
+    let s2 := set_nonce (gen_nonce f1) s1 in
+    let s3 := set_auth (gen_auth (self_params s2) f1) s2 in
+    match ms_M s3 with
+    | O => (Raise "ValueError"%string, s3)
+    | M =>
+      if Nat.ltb (length (ms_nonce s3)) 7 then (Raise "ValueError"%string, s3)
+      else
+      let L := (15 - length (ms_nonce s3))%nat in
+      let pt := if ms_enc s3
+                then (if mic_absent_patched (self_params s3) f1 then py_drop_last M (f_data f1) else f_data f1)
+                else [] in
+      let '(ct, tag) := ccm_encrypt E M L key (ms_nonce s3) (ms_auth s3) pt in
+      (Ok (restore (self_params s3) (set_mic tag (if ms_enc s3 then set_data ct f1 else f1))), s3)
+    end.
+
+  Definition decrypt_st (key : bytes) (s : mstate) (f : frame) : pyres (frame * bool) * mstate :=
+    let '(f1, s1) := csl_st s f in
+    let s2 := set_nonce (gen_nonce f1) s1 in
+    let s3 := set_auth (gen_auth (self_params s2) f1) s2 in
+    let '(ct, mic) := extract (self_params s3) f1 in
+    match ms_M s3 with
+    | O => (Raise "ValueError"%string, s3)
+    | M =>
+      if Nat.ltb (length (ms_nonce s3)) 7 then (Raise "ValueError"%string, s3)
+      else
+      match ccm_decrypt E M (15 - length (ms_nonce s3)) key (ms_nonce s3) (ms_auth s3) ct mic with
+      | Some pt =>
+        let f2 := if ms_enc s3 then set_data pt f1 else f1 in
+        (* generateMIC: self.auth = self.generateAuth(packet) *)
+        let s4 := set_auth (gen_auth (self_params s3) f2) s3 in
+        (Ok (restore (self_params s4) (set_mic (generate_mic gen_auth (self_params s4) key (ms_nonce s4) f2) f2), true), s4)
+      | None => (Ok (restore (self_params s3) f1, false), s3)
+      end
+    end.
+
+  (** a sequence of calls on one instance *)
+  Inductive call : Type := CEnc (f : frame) | CDec (f : frame).
+  Inductive call_res : Type := REnc (r : pyres frame) | RDec (r : pyres (frame * bool)).
+
+  Definition do_call (key : bytes) (s : mstate) (c : call) : call_res * mstate :=
+    match c with
+    | CEnc f => let '(r, s') := encrypt_st key s f in (REnc r, s')
+    | CDec f => let '(r, s') := decrypt_st key s f in (RDec r, s')
+    end.
+
+  Fixpoint run_calls (key : bytes) (s : mstate) (cs : list call) : list call_res * mstate :=
+    match cs with
+    | [] => ([], s)
+    | c :: r => let '(o, s1) := do_call key s c in
+                let '(os, s2) := run_calls key s1 r in (o :: os, s2)
+    end.
+
+  (** the same call on a fresh instance *)
+  Definition fresh_call (key : bytes) (c : call) : call_res :=
+    match c with CEnc f => REnc (encrypt key f) | CDec f => RDec (decrypt key f) end.
+
   (** [encrypt] applied to a packet in which the manager's base-class layer is absent:
       generateAuth evaluates packet[self.base_class:], which raises IndexError (scapy). *)
   Definition encrypt_packet (base_present : bool) (key : bytes) (f : frame) : pyres frame :=
@@ -561,6 +648,30 @@ Definition check_hash (c : bytes * bytes) : bool :=
   let '(i, o) := c in bytes_eqb (zb_hash aes128_enc i) o.
 Definition check_hash_key (c : bytes * N * bytes) : bool :=
   let '(k, i, o) := c in bytes_eqb (hash_key aes128_enc k i) o.
+
+(** one manager instance, a sequence of calls: (key, [(is_encrypt, input frame, raw bytes of the
+    input's base layer, observed result)]) — evaluated with the STATEFUL transcription *)
+Definition res_eqb (is_enc : bool) (r : call_res) (o : obs) : bool :=
+  let '(oexc, ostatus, fout) := o in
+  match r, is_enc with
+  | REnc (Ok f), true => match oexc with None => frame_eqb f fout | Some _ => false end
+  | REnc (Raise cls), true => match oexc with Some cls' => String.eqb cls cls' | None => false end
+  | RDec (Ok (f, b)), false =>
+      match oexc, ostatus with None, Some b' => Bool.eqb b b' && frame_eqb f fout | _, _ => false end
+  | RDec (Raise cls), false => match oexc with Some cls' => String.eqb cls cls' | None => false end
+  | _, _ => false
+  end.
+
+Fixpoint check_calls_from (key : bytes) (s : mstate) (cs : list (bool * frame * bytes * obs)) : bool :=
+  match cs with
+  | [] => true
+  | (is_enc, fin, raw_in, o) :: r =>
+    let '(res, s') := do_call aes128_enc key s (if is_enc then CEnc fin else CDec fin) in
+    bytes_eqb (raw_base fin) raw_in && res_eqb is_enc res o && check_calls_from key s' r
+  end.
+
+Definition check_calls (c : bytes * list (bool * frame * bytes * obs)) : bool :=
+  let '(key, cs) := c in check_calls_from key ms_init cs.
 
 (** APS secured data request: observed exception class (None = a frame was produced) *)
 Definition check_aps_data (c : bytes * N * bytes * bytes * option string) : bool :=
